@@ -525,6 +525,95 @@ CFG_HP = {"name": "src_split_hostport", "params": [("hostinfo", "list N")], "ret
           "subscripts": STR_SUBS, "shapes": [shape_try_port]}
 
 
+# ---- URL.get_authority / URL.to_text -------------------------------------------------------------------------
+URL_ATTRS = {"scheme": ("u_scheme", None, "str"), "username": ("u_user", None, "str"), "password": ("u_pass", None, "str"),
+             "host": ("u_host", None, "str"), "port": ("u_port", None, "oz"), "fragment": ("u_frag", None, "str"),
+             "family": ("u_family", None, "fam"), "path_parts": ("u_path", None, "lstr"),
+             "default_port": ("default_port T", None, "oz"), "uses_netloc": ("uses_netloc T", None, "bool")}
+
+
+def cond_url(T, e, scope):
+    # self.family == socket.AF_INET6
+    if isinstance(e, ast.Compare) and len(e.ops) == 1 and isinstance(e.ops[0], ast.Eq) and \
+            ast.unparse(e.left) == "self.family" and ast.unparse(e.comparators[0]) == "socket.AF_INET6":
+        return "(u_family self =? 6)"
+    # self.port != self.default_port   (ints or None)
+    if isinstance(e, ast.Compare) and len(e.ops) == 1 and isinstance(e.ops[0], (ast.Eq, ast.NotEq)) and \
+            not isinstance(e.left, ast.Constant) and T.kind(e.left) == "oz" and T.kind(e.comparators[0]) == "oz":
+        t = "(optZ_eqb %s %s)" % (T.expr(e.left, scope), T.expr(e.comparators[0], scope))
+        return t if isinstance(e.ops[0], ast.Eq) else "(negb %s)" % t
+    return None
+
+
+def _call_str(T, e, scope):
+    if len(e.args) != 1 or e.keywords or T.kind(e.args[0]) != "oz":
+        raise Unsupported("str() of something else than the port")
+    return "(str_of_Z (oz_get %s))" % T.expr(e.args[0], scope)
+
+
+def _meth_decode_idna(T, e, scope):
+    """self.host.encode('idna').decode('ascii'): the idna codec (oracle `enc`; its UnicodeError is the caller's)"""
+    if ast.unparse(e) != "self.host.encode('idna').decode('ascii')":
+        raise Unsupported("decode() of an unknown shape: %s" % ast.unparse(e))
+    return "(enc (u_host self))"
+
+
+def normalise_true(node, name):
+    """specialise a boolean keyword parameter to True (the only way to_text calls get_authority)"""
+    class Sub(ast.NodeTransformer):
+        def visit_Name(self, n):
+            return ast.copy_location(ast.Constant(value=True), n) if n.id == name else n
+    node = Sub().visit(node)
+    node.args.defaults = node.args.defaults[:len(node.args.defaults) - 1] if node.args.args[-1].arg == name else None
+    if node.args.defaults is None:
+        raise Unsupported("parameter %s is not the last one" % name)
+    node.args.args = [a for a in node.args.args if a.arg != name]
+    ast.fix_missing_locations(node)
+    return node
+
+
+def cond_true(T, e, scope):
+    if isinstance(e, ast.Constant) and e.value is True:
+        return "true"
+    return None
+
+
+CFG_GA = {"name": "src_get_authority", "params": [("self", "url"), ("full_quote", "bool")], "ret": "list N", "num": "Z",
+          "kinds": {"parts": "lstr", "full_quote": "bool"}, "attrs": URL_ATTRS, "defaults": {"full_quote": "False"},
+          "rv_default": "(@nil N)", "globals": GLOBALS,
+          "truthy": {"str": "nonempty", "lstr": "is_nonempty", "oz": "oz_truthy"},
+          "calls": {"quote_userinfo_part": _call_quote("quote_userinfo_part"), "str": (_call_str, "str")},
+          "methods": {"decode": (_meth_decode_idna, "str")},
+          "conds": [cond_url, cond_true], "shapes": [shape_append_alias]}
+
+
+def _meth_get_authority(T, e, scope):
+    kw = {k.arg: k.value for k in e.keywords}
+    if e.args or set(kw) != {"full_quote", "with_userinfo"} or not (
+            isinstance(kw["with_userinfo"], ast.Constant) and kw["with_userinfo"].value is True) or \
+            not _is_name(e.func.value, "self"):
+        raise Unsupported("get_authority called differently: %s" % ast.unparse(e))
+    return "(src_get_authority self %s)" % T.expr(kw["full_quote"], scope)
+
+
+def _meth_qp_to_text(T, e, scope):
+    if ast.unparse(e.func) != "self.query_params.to_text" or e.args or [k.arg for k in e.keywords] != ["full_quote"]:
+        raise Unsupported("to_text called differently: %s" % ast.unparse(e))
+    return "(src_query_to_text (u_query self) %s)" % T.expr(e.keywords[0].value, scope)
+
+
+CFG_TT = {"name": "src_to_text", "params": [("self", "url"), ("full_quote", "bool")], "ret": "list N", "num": "Z",
+          "kinds": {"parts": "lstr", "full_quote": "bool", "scheme": "str", "path": "str", "authority": "str",
+                    "query_string": "str", "fragment": "str", "p": "str"},
+          "attrs": URL_ATTRS, "defaults": {"full_quote": "False"}, "rv_default": "(@nil N)", "globals": GLOBALS,
+          "truthy": {"str": "nonempty", "lstr": "is_nonempty", "oz": "oz_truthy"},
+          "eqb": {"str": "text_eqb"}, "subscripts": STR_SUBS,
+          "calls": {"quote_path_part": _call_quote("quote_path_part"),
+                    "quote_fragment_part": _call_quote("quote_fragment_part")},
+          "methods": {"get_authority": (_meth_get_authority, "str"), "to_text": (_meth_qp_to_text, "str")},
+          "conds": [cond_url], "shapes": [shape_append_alias]}
+
+
 HEADER = """(* GENERATED on every run by harness/translators/c06_src.py from %s; do not edit. *)
 From Boltons Require Import Lib.Prelude Lib.PySrc Lib.C06_Text Model.C06_Model Lib.C06_PySrc.
 Open Scope N_scope.
@@ -550,6 +639,10 @@ def generate(repo):
     fa, fb = slice_parse_url(py2coq.get_function(path, "parse_url"))
     out.append(UT(dict(CFG_UI)).function(fa))
     out.append(UT(dict(CFG_HP)).function(fb))
+    out.append("(* the idna codec on the host, as a function (its UnicodeError is propagated by the callers) *)\nVariable enc : list N -> list N.\n")
+    node = normalise_true(py2coq.get_function(path, "URL.get_authority"), "with_userinfo")
+    out.append(UT(dict(CFG_GA)).function(node))
+    out.append(UT(dict(CFG_TT)).function(py2coq.get_function(path, "URL.to_text")))
     out.append("End Src.\n")
     return {"C06_Src": "\n".join(out)}
 
